@@ -117,6 +117,7 @@ pub mod c08;
 pub mod c10;
 pub mod c12;
 pub mod c13;
+pub mod c15;
 #[cfg(feature = "c16")]
 pub mod c16;
 pub mod c17;
@@ -135,6 +136,7 @@ pub fn registry() -> Vec<(&'static str, &'static str, fn())> {
     c10::register(&mut v);
     c12::register(&mut v);
     c13::register(&mut v);
+    c15::register(&mut v);
     #[cfg(feature = "c16")]
     c16::register(&mut v);
     c17::register(&mut v);
